@@ -8,7 +8,7 @@ import Aiorpcx.C08.Model
          default force_after after replying) `NQ i` `NW i` (notifications) `BT i j` (batch
          [waiting, quick]) `F i` `O k` `OB k` (request / batch) `ON k` (notification: no waiter)
          `R k` `L` `LE` (peer closed / link broke) `AC c fa` `ACC c d fa` `ACT c fa` `AB` `A dt`
-         `Z i` (the future handler i awaits is cancelled) `XC c` (the task in close() is cancelled)
+         `WC i fa` (handler waits for `F i`, then closes) `Z i` (the future handler i awaits is cancelled) `XC c` (the task in close() is cancelled)
          `OM k n` (n send_request tasks k .. k+n-1 started together)
     out: per event `hook=.. closed=.. live=.. tickets=.. closers=.. abort=.. lost=.. now=..
          closing=..`, separated by ` ; ` (`abort` = instant of the first abort() that came
@@ -33,6 +33,7 @@ def parseEvent (dfa : Nat) (s : String) : Option (List Event) :=
   | ["ON", _] => some []
   | ["B", i, r] => do pure [.request (← i.toNat?) (.stubborn (← r.toNat?))]
   | ["C", i, fa] => do pure [.request (← i.toNat?) (.closer (← fa.toNat?))]
+  | ["WC", i, fa] => do pure [.request (← i.toNat?) (.thenClose (← fa.toNat?))]
   | ["F", i] => do pure [.handlerFinish (← i.toNat?)]
   | ["O", k] => do pure [.outgoing (← k.toNat?)]
   | ["R", k] => do pure [.answer (← k.toNat?)]
